@@ -16,6 +16,37 @@ CHECKS = {
             'conversion tolerance 16 ulp; comparison pairs nearer than 1e-9 relative that are not conversion '
             'images are unconstrained.',
             'DESIGN.md §4 C05'),
+    'C06': ('exhaustive enumeration of operator cells (kinds x units x 4 operators) with Hypothesis-drawn '
+            'magnitudes vs an independent dimension table + SI table; inverse-law metamorphic checks',
+            'Every operator cell is evaluated for each generated magnitude tuple, so the finite part of the domain '
+            '(which kinds/units/operators) is covered completely and only magnitudes are sampled; exploration.',
+            'Trusts the dimension vectors / SI factors of vp/oracle/units_si.py; additive tolerance 1e-12 of the '
+            'operand magnitudes, multiplicative 1e-9; two cells are recorded known findings pinned by the suite.',
+            'DESIGN.md §4 C06'),
+    'C08': ('Hypothesis-generated motors/speeds/duty cycles aimed at the dead-zone boundary (ulp neighbours) vs '
+            'the piecewise law re-typed from the statement; anchors, continuity and sign-reversal relations',
+            'No counterexample among generated (motor, speed, duty) triples, 40% of them within 4 ulp of the '
+            'dead-zone boundary; exploration of a pure function with a closed-form oracle.',
+            'Trusts vp/oracle/motor.py (12 lines) and the SI table; tolerance 1e-9 scaled by 1+|w/(D w0)|.',
+            'DESIGN.md §4 C08'),
+    'C10': ('Hypothesis-generated declaration programs (program-as-data) interpreted against a reference model '
+            'of the three declaration functions; full before/after snapshots of every element',
+            'No counterexample among generated call sequences; every call is judged (accept/reject prediction, '
+            'resulting state, untouched bystanders); exploration over histories.',
+            'Trusts vp/oracle/relations.py; pairs the statement does not specify (worm/wheel with different helix, '
+            'wheel in a gear mating, conditions within 1e-9 of a threshold) are only checked for consistency.',
+            'DESIGN.md §4 C10'),
+    'C19': ('Hypothesis-generated straight-line programs over a pool of live quantities with an invariant after '
+            'every step; boundary-aimed constructor arguments',
+            'No live constrained quantity violated its constraint after any step of any generated program '
+            '(subnormal / huge / zero operands included); exploration over programs.',
+            'Operands finite; exceptions of the documented classes are outcomes, not violations.',
+            'DESIGN.md §4 C19'),
+    'C20': ('Hypothesis-generated declaration programs with re-routing and name collisions vs a dict-model of '
+            'the drives graph; immutability probes',
+            'No counterexample among generated assembly histories; exploration.',
+            'Cycles are outside the domain; acceptance of each declaration is observed, not predicted.',
+            'DESIGN.md §4 C20'),
 }
 
 NOT_YET = {
